@@ -76,6 +76,7 @@ def run(ctx: core.Ctx):
                 ctx.violation(f"{h}.hedge/formula/second-{form}-call", {"hedge": h}, "table (reversed)", "differs")
             if form == "array":
                 forms.check(ctx, f"{h}.hedge", {"hedge": h}, hs[h].hedge, X, V, atol=TOL, exact32=True)
+                forms.check_int(ctx, f"{h}.hedge", {"hedge": h}, hs[h].hedge, np.array([0.0, 1.0]), atol=TOL)
             # batches of length one keep their shape: (1,) and (1, 1)
             for one in (np.array([X[len(X) // 2]]), np.array([[X[len(X) // 3]]])):
                 r1 = np.asarray(hs[h].hedge(one))
